@@ -1,1 +1,82 @@
-From NC Require Import Model.Base Model.SessionLTS.
+(* Props/C03.v — each request receives exactly its own reply.
+   Model: Model/SessionLTS.v (one label = one shared-state effect of the real threads).
+   [reach s] = s is the result of ANY label sequence accepted from the initial state: any number of
+   client threads and requests, any interleaving, any server messages, any fault. *)
+From NC Require Import Model.Base Model.SessionLTS Proofs.SessionLTSProofs.
+
+(* A stored reply carries the request's own message-id ... *)
+Theorem C03_own_reply : forall s rid r i,
+  reach s -> rq s rid = Some r -> r_reply r = Some i -> i = r_id r.
+Proof. exact c03_own_reply. Qed.
+Print Assumptions C03_own_reply.
+
+(* ... and so does the reply a completed (synchronous or awaited asynchronous) call returned. *)
+Theorem C03_outcome_own : forall s rid r i,
+  reach s -> rq s rid = Some r -> r_st r = CDone (OReply i) -> i = r_id r.
+Proof. exact c03_outcome_own. Qed.
+Print Assumptions C03_outcome_own.
+
+(* Message-ids of one session are pairwise distinct (under the fresh-id oracle = uuid4: a trace that
+   re-uses an id is not accepted by [step]). *)
+Theorem C03_unique_ids : forall s, reach s -> NoDup (map r_id (reqs s)).
+Proof. exact c03_unique_ids. Qed.
+Print Assumptions C03_unique_ids.
+
+(* No request is delivered a reply twice. *)
+Theorem C03_at_most_once : forall s, reach s -> NoDup (deliver_log s).
+Proof. exact c03_at_most_once. Qed.
+Print Assumptions C03_at_most_once.
+
+(* Delivery goes to the request registered under the reply's message-id, and to nothing else. *)
+Theorem C03_deliver_by_id : forall s rid s',
+  reach s -> step s (LEvSetReply rid) = Some s' ->
+  exists id r, pc s = WDeliver rid id /\ tget id (table s) = Some rid /\ rq s rid = Some r /\ r_id r = id /\
+               rq s' rid = Some (set_reply id r).
+Proof. exact c03_deliver_by_id. Qed.
+Print Assumptions C03_deliver_by_id.
+
+(* A reply (in particular one arriving after its request timed out) changes only that request's record:
+   the session stays as connected as it was, queues and every other request are untouched ... *)
+Theorem C03_late_reply_frame : forall s rid s',
+  step s (LEvSetReply rid) = Some s' ->
+  connected s' = connected s /\ closing s' = closing s /\ table s' = table s /\ nq s' = nq s /\ outq s' = outq s /\
+  (forall rid', rid' <> rid -> rq s' rid' = rq s rid').
+Proof. exact c03_deliver_frame. Qed.
+Print Assumptions C03_late_reply_frame.
+
+(* ... and removing its table entry touches no other entry. *)
+Theorem C03_delete_frame : forall s id s',
+  step s (LTDel id) = Some s' ->
+  connected s' = connected s /\ reqs s' = reqs s /\ nq s' = nq s /\ pc s' = WIdle /\
+  (forall k, k <> id -> tget k (table s') = tget k (table s)).
+Proof. exact c03_delete_frame. Qed.
+Print Assumptions C03_delete_frame.
+
+(* Messages whose root is not rpc-reply are ignored by the reply listener of a tag-checking profile. *)
+Theorem C03_nonreply_ignored : forall s kind arg s',
+  qualify s = true -> (kind = 3 \/ kind = 4) -> step s (LRecv kind arg) = Some s' -> s' = s.
+Proof. exact c03_nonreply_ignored. Qed.
+Print Assumptions C03_nonreply_ignored.
+
+(* Non-vacuity: two requests pipelined, replies in reverse order with a notification in between, the first
+   request timed out before its (late) reply arrived; the trace is accepted and each holds its own reply. *)
+Definition ex_trace : list label :=
+  [ LReg 0 100; LChk 0 true; LPut 0; LReg 1 101; LChk 1 true; LPut 1; LDeq 0; LDeq 1;
+    LWaitRes 0 false;                                   (* request 0 times out *)
+    LRecv 2 7; LNqPut 7;
+    LRecv 0 101; LTGet 101 true; LEvSetReply 1; LTDel 101; LWaitRes 1 true;
+    LRecv 0 100; LTGet 100 true; LEvSetReply 0; LTDel 100 ].   (* late reply for request 0 *)
+
+Example C03_ex_accepted :
+  match run (init true) ex_trace with
+  | Some s => map (fun r => (r_st r, r_reply r)) (reqs s)
+              = [ (CDone (OExc 4), Some 100); (CDone (OReply 101), Some 101) ]
+              /\ connected s = true /\ table s = [] /\ deliver_log s = [1%nat; 0%nat]
+  | None => False
+  end.
+Proof. vm_compute. repeat split; reflexivity. Qed.
+
+(* a reply for an id nobody registered is not delivered: the lookup must report "not found" *)
+Example C03_ex_unknown_id_rejected :
+  run (init true) [LReg 0 100; LRecv 0 7; LTGet 7 true] = None.
+Proof. vm_compute. reflexivity. Qed.
